@@ -27,6 +27,7 @@ type pProfile struct {
 	bigWin    bool // prefer WindowSize >= BufferSize (C12 literal clause)
 	twin      bool // compare with a fresh parser after every Reset (C13)
 	staleBias bool // geometry and data that make stale dictionary entries matter (C13)
+	bigTable  bool // hash tables of 2^20 entries (oracle only)
 }
 
 func (pf pProfile) withKinds(k ...string) pProfile { pf.kinds = k; return pf }
@@ -79,6 +80,9 @@ func genPCfg(r *rng, kind string, pf pProfile) pcfg {
 		}
 	}
 	hb := func(il int) int {
+		if pf.bigTable && 8*il >= 20 {
+			return r.pick(20, 20, 21)
+		}
 		m := 8 * il
 		if m > 6 {
 			m = 6
@@ -1053,6 +1057,43 @@ func genPOsapFar(r *rng, id string, cnt counters, emit func(line, out string)) *
 		e.step("parse 0")
 	}
 	cnt.inc("p.large.osapfar")
+	emit("E", "E")
+	return e
+}
+
+// genPGiant: one hash parser with a buffer, a block and a window beyond 16 MiB (positions, offsets
+// and block lengths above 2^24). Oracle only. Parse(nil) over more than 16 MiB, then a repeat of the
+// beginning of the stream (offset > 2^24), parsed normally.
+func genPGiant(r *rng, id string, cnt counters, emit func(line, out string)) *pExec {
+	kind := r.pickS("HP", "BHP", "DHP", "BDHP", "BUP", "HP")
+	c := pcfg{kind: kind, f: map[string]int{}}
+	n1 := 16<<20 + r.pick(1, 4096, 300000)
+	c.f["BufferSize"] = n1 + 1<<20
+	c.f["WindowSize"] = r.pick(n1+1<<20, 0, n1)
+	c.f["BlockSize"] = r.pick(n1+500000, n1, 17<<20)
+	c.f["ShrinkSize"] = r.pick(0, n1)
+	e, st := newPExec(c, cnt)
+	emit(fmt.Sprintf("S %s X", id), fmt.Sprintf("S %s ok", id))
+	e.lines = append(e.lines, e.header(id))
+	if os.Getenv("LZH_TIMING") != "" {
+		fmt.Fprintln(os.Stderr, "cfg giant", e.header(id))
+	}
+	if st != "ok" {
+		emit("E", "E")
+		return e
+	}
+	seed := r.intn(100000)
+	e.step(fmt.Sprintf("write #%d:%d", seed, n1))
+	e.step("parsenil")
+	for g := 0; g < 3 && !e.dead && e.unparsed() > 0; g++ {
+		e.step("parsenil")
+	}
+	// the beginning of the stream again: candidates more than 2^24 bytes back
+	e.step(fmt.Sprintf("write #%d:%d", seed, r.rangeIn(50000, 300000)))
+	for g := 0; g < 4 && !e.dead && e.unparsed() > 0; g++ {
+		e.step("parse 0")
+	}
+	cnt.inc("p.large.giant")
 	emit("E", "E")
 	return e
 }
